@@ -684,7 +684,7 @@ def product_cases(rng, tier):
     if tier == 'quick':
         out = rng.sample(out, 400)
     else:
-        out = rng.sample(out, 6000)
+        out = rng.sample(out, 9000)
     cases = []
     for (stype, k, pl, ks, declared, pr) in out:
         w = World(rng)
@@ -735,29 +735,39 @@ class Slices(Stream):
         return out + [w[1] for w in WITNESSES]
 
     def gen(self, rng, tier):
-        n = 380 if tier == 'quick' else 7000
+        n = 380 if tier == 'quick' else 12000
         cases = product_cases(rng, tier)
         for i in range(n):
             cases.append(random_case(rng, 1 if i % 25 else 0))
-        self.precompute(self.corpus() + cases)
-        return cases
+        rng.shuffle(cases)      # so that a time-limited prefix is a fair sample of the whole plan
+        self.precompute(self.corpus(), None)
+        budget = float(os.environ.get('VERIF_C10_BUDGET', '') or (80 if tier == 'quick' else 540))
+        done = self.precompute(cases, budget, minimum=300)
+        if done < len(cases):
+            log('C10: observation budget of %.0f s reached after %d of %d planned cases' % (budget, done, len(cases)))
+        return cases[:done]
 
-    def precompute(self, cases):
-        """the implementation runs take ~0.1 s each: run them in worker processes (same code path:
-        run_recipe), keep the observations for observe()"""
+    def precompute(self, cases, budget, minimum=0):
+        """the implementation runs take ~0.1 s each: run them in worker processes (same code path: run_recipe),
+        keep the observations for observe().  With a budget (seconds) only the prefix observed in time is used
+        (the machine is shared; the plan is shuffled, so the prefix is a fair sample).  Returns the prefix length."""
         import multiprocessing as mp
-        todo = [c for c in cases if json.dumps(c) not in self.cache]
-        if len(todo) < 40:
-            return
+        t0 = time.time()
         nproc = max(1, min(NPROC, 12))
+        done = 0
         try:
             ctx = mp.get_context('fork')
             with ctx.Pool(nproc) as pool:
-                res = pool.map(_worker, todo, chunksize=8)
-            for c, o in zip(todo, res):
-                self.cache[json.dumps(c)] = o
+                for c, o in zip(cases, pool.imap(_worker, cases, chunksize=4)):
+                    self.cache[json.dumps(c)] = o
+                    done += 1
+                    if budget is not None and done >= minimum and time.time() - t0 > budget:
+                        pool.terminate()
+                        break
         except Exception as e:
             log('C10: parallel observation failed (%r), falling back to sequential' % e)
+            done = len(cases) if budget is None else max(done, min(len(cases), minimum))
+        return done
 
     def observe(self, case):
         k = json.dumps(case)
